@@ -193,12 +193,13 @@ class Tables(object):
                            form=st.sampled_from(['kw', 'dict'])),
         # ---- in place
         'setitem': dict(t=_t, col=_ci, new=st.booleans(), how=st.sampled_from(['item', 'attr', 'update']),
-                        mode=st.sampled_from(['fit', 'fit', 'scalar', 'len1', 'tuple', 'misfit', 'misfit']), vals=_vals, k=st.integers(0, 9)),
+                        mode=st.sampled_from(['fit', 'fit', 'scalar', 'len1', 'tuple', 'misfit']), vals=_vals, k=st.integers(0, 9)),
+        'set_misfit': dict(t=_t, col=_ci, new=st.booleans(), how=st.sampled_from(['item', 'attr', 'update']), vals=_vals, k=st.integers(0, 9)),
         'delcol': dict(t=_t, col=_ci, how=st.sampled_from(['item', 'attr'])),
         # ---- reading / selecting
         'row': dict(t=_t, i=st.integers(0, 30), neg=st.booleans()),
         'slice': dict(t=_t, start=_sl, stop=_sl, step=_step),
-        'mask': dict(t=_t, bits=st.lists(st.booleans(), min_size=MAXROWS, max_size=MAXROWS), mode=st.sampled_from(['bits', 'bits', 'bits', 'none', 'all']),
+        'mask': dict(t=_t, bits=st.integers(0, 2 ** MAXROWS - 1), mode=st.sampled_from(['bits', 'bits', 'bits', 'none', 'all']),
                      form=st.sampled_from(['list', 'list', 'array'])),
         'take': dict(t=_t, idx=st.lists(st.integers(-30, 30), max_size=6), form=st.sampled_from(['list', 'list', 'array', 'range'])),
         'project': dict(t=_t, cols=st.lists(_ci, min_size=1, max_size=3), form=st.sampled_from(['list', 'tuple', 'and', 'and_extra', 'and_str', 'keys']),
@@ -206,7 +207,7 @@ class Tables(object):
         'minus': dict(t=_t, cols=st.lists(_ci, min_size=1, max_size=3), form=st.sampled_from(['str', 'list', 'list_extra', 'missing'])),
         'filter': dict(t=_t, col=_ci, pick=st.integers(0, 30), v=_cell, use_v=st.booleans(), form=st.sampled_from(['inc', 'exc', 'inc_list', 'exc_list', 'inc_dict'])),
         # ---- derived columns, renaming, per-column transforms
-        'derive': dict(t=_t, fn=st.sampled_from(sorted(FN)), args=st.lists(_ci, min_size=1, max_size=3), target=_ci, new=st.booleans(),
+        'derive': dict(t=_t, fn=st.sampled_from(sorted(FN)), args=st.lists(_ci, min_size=1, max_size=3), tgt=_ci, new=st.booleans(),
                        form=st.sampled_from(['getitem', 'call', 'call', 'chain', 'value']), mode=st.sampled_from(['fit', 'scalar', 'len1', 'misfit']),
                        vals=_vals, k=st.integers(0, 9), fn2=st.sampled_from(sorted(F1))),
         'rename': dict(t=_t, col=_ci, form=st.sampled_from(['kw', 'relabel_kw', 'dict', 'prefix', 'suffix', 'func', 'list'])),
@@ -214,7 +215,7 @@ class Tables(object):
                    form=st.sampled_from(['all', 'args', 'list', 'empty_list', 'two_fns', 'with_other'])),
         # ---- concatenation
         'concat': dict(ts=st.lists(_t, min_size=1, max_size=3), form=st.sampled_from(['add', 'add', 'concat_args', 'concat_list', 'sum_start', 'sum0'])),
-        'add_record': dict(t=_t, rec=_record, rec2=_record, src=_t, i=st.integers(0, 30), form=st.sampled_from(['dict', 'Dict', 'row_of', 'concat', 'records', 'radd'])),
+        'add_record': dict(t=_t, rec=_record, rec2=_record, src=_t, i=st.integers(0, 30), form=st.sampled_from(['dict', 'Dict', 'row_of', 'concat', 'records'])),
         'add_none': dict(t=_t, form=st.sampled_from(['none', 'zero', 'rnone', 'rzero', 'zero_float'])),
         'copy': dict(t=_t, form=st.sampled_from(['copy', 'inc', 'exc', 'ctor', 'copy_module', 'full_slice'])),
     }
@@ -321,7 +322,7 @@ class Tables(object):
             ln = cands[k % len(cands)]
             v = [cells[i % len(cells)] for i in range(ln)]
             return v, list(v), False
-        ln = n if ncols > 0 else min(len(cells), 1 + k % 6)
+        ln = n if ncols > 0 else min(len(cells), k % 7)
         v = [cells[i % len(cells)] for i in range(ln)]
         if mode == 'tuple':
             return tuple(v), list(v), True
@@ -357,11 +358,11 @@ class Tables(object):
         elif form == 'data_kw':
             d = self._pure('dictable(data = %s)' % short(arg, 150), lambda: dictable(data=arg))
         else:
-            if len(arg) == 1 and False:
-                pass
             d = self._pure('dictable.concat(%s)' % short(arg, 150), dictable.concat, arg)
             # concat of records: each record is a one-row table (no row when it has no key)
             m = T.concat([T.from_records([r]) for r in recs])
+        check(len(arg) == len(recs) and all(type(x) is dict and list(x) == list(r) and all(same(x[c], r[c]) for c in r) for x, r in zip(arg, recs)),
+              'construction from records altered the records: %s, were %s', arg, recs)
         self._add('new_records', d, m)
 
     def op_new_columns(self, cols, n, form):
@@ -458,12 +459,12 @@ class Tables(object):
         self.flags.add('ctor_misfit')
 
     # ------------------------------------------------------------------ in place
-    def op_setitem(self, t, col, new, how, mode, vals, k):
-        self._begin('setitem')
+    def op_setitem(self, t, col, new, how, mode, vals, k, op='setitem'):
+        self._begin(op)
         e = self._pick(t)
         if e is None:
             return self._skip()
-        self._use('setitem', e)
+        self._use(op, e)
         d, m = e['d'], e['m']
         c = self._fresh(e, col) if (new or not m.cols) else m.cols[col % len(m.cols)]
         value, cells, fits = self._value(mode, vals, m.n, len(m.cols), k)
@@ -491,6 +492,10 @@ class Tables(object):
             must_raise(what, ValueError, f)
             self._unchanged(what + ' (rejected)', snap)
             self.flags.add('misfit')
+
+    def op_set_misfit(self, t, col, new, how, vals, k):
+        """an assignment whose length is neither len(d) nor 1 (any length fits a table without columns)"""
+        self.op_setitem(t, col, new, how, 'misfit', vals, k, op='set_misfit')
 
     def op_delcol(self, t, col, how):
         self._begin('delcol')
@@ -549,7 +554,7 @@ class Tables(object):
             return self._skip()
         self._use('mask', e)
         d, m = e['d'], e['m']
-        bits = [bool(bits[i % len(bits)]) for i in range(m.n)]
+        bits = [bool((bits >> (i % MAXROWS)) & 1) for i in range(m.n)]
         if mode == 'none':
             bits = [False] * m.n
         elif mode == 'all':
@@ -680,7 +685,7 @@ class Tables(object):
         self._add('filter', res, newm, [e])
 
     # ------------------------------------------------------------------ derived columns, renaming, per-column transforms
-    def op_derive(self, t, fn, args, target, new, form, mode, vals, k, fn2):
+    def op_derive(self, t, fn, args, tgt, new, form, mode, vals, k, fn2):
         self._begin('derive')
         e = self._pick(t, lambda e: e['m'].cols)
         if e is None:
@@ -695,13 +700,13 @@ class Tables(object):
             res = self._pure('d[lambda %s: %s] on %s' % (', '.join(names), fn, rd), d.__getitem__, f)
             check(isinstance(res, list) and same_list(res, column), 'd[lambda %s: %s] = %s, the model says %s', ', '.join(names), fn, res, column)
             return
-        c = self._fresh(e, target) if new else m.cols[target % len(m.cols)]
+        c = self._fresh(e, tgt) if new else m.cols[tgt % len(m.cols)]
         if form == 'call':
             res = self._pure('d(%s = lambda %s: %s) on %s' % (c, ', '.join(names), fn, rd), lambda: d(**{c: f}))
-            self._add('derive', res, self._assign_model(m, c, column) if m.n else T(m.cols if c in m.cols else m.cols + [c], []), [e])
+            self._add('derive', res, self._assign_model(m, c, column), [e])
         elif form == 'chain':
-            c1 = self._fresh(e, target)
-            c2 = self._fresh(e, target + 1, avoid=[c1])
+            c1 = self._fresh(e, tgt)
+            c2 = self._fresh(e, tgt + 1, avoid=[c1])
             g = _named([c1], F1[fn2])
             second = [F1[fn2](x) for x in column]
             # given in the order (dependent, independent): the call has to work out the order itself
@@ -870,8 +875,6 @@ class Tables(object):
             res = self._pure('d + %s on %s' % (r, rd), lambda: d + dict(r))
         elif form == 'Dict':
             res = self._pure('d + Dict(%s) on %s' % (r, rd), lambda: d + Dict(r))
-        elif form == 'radd':
-            res = self._pure('%s + d on %s' % (r, rd), lambda: dict(r) + d)
         elif form == 'row_of':
             sd, si = operands[1]['d'], i % operands[1]['m'].n
             res = self._pure('d + d2[%i] on %s and %s' % (si, rd, short(raw(sd), 120)), lambda: d + sd[si])
